@@ -13,6 +13,7 @@ type IOReg struct {
 // IORegs lists the registers whose read-back the property C06 states.
 func IORegs() []IOReg {
 	return []IOReg{
+		{Addr: 0xFF00, Name: "JOYP", Ones: 0xC0, Writable: 0x30, ReadOnly: 0x0F},
 		{Addr: 0xFF04, Name: "DIV", NoStore: true, ReadOnly: 0xFF},
 		{Addr: 0xFF07, Name: "TAC", Ones: 0xF8, Writable: 0x07},
 		{Addr: 0xFF0F, Name: "IF", Ones: 0xE0, Writable: 0x1F},
@@ -24,8 +25,8 @@ func IORegs() []IOReg {
 		{Addr: 0xFF45, Name: "LYC", Writable: 0xFF},
 		{Addr: 0xFF46, Name: "DMA", Writable: 0xFF},
 		{Addr: 0xFF47, Name: "BGP", Writable: 0xFF},
-		{Addr: 0xFF48, Name: "OBP0", Writable: 0xFC},
-		{Addr: 0xFF49, Name: "OBP1", Writable: 0xFC},
+		{Addr: 0xFF48, Name: "OBP0", Writable: 0xFF},
+		{Addr: 0xFF49, Name: "OBP1", Writable: 0xFF},
 		{Addr: 0xFF4A, Name: "WY", Writable: 0xFF},
 		{Addr: 0xFF4B, Name: "WX", Writable: 0xFF},
 		{Addr: 0xFFFF, Name: "IE", Writable: 0xFF},
